@@ -214,6 +214,21 @@ func init() {
 				if j > 0 && rng.Intn(2) == 0 { // same footprint, neighbouring or identical key: overlapping ranges
 					t = prev
 					t[4] += int64(rng.Intn(3) - 1)
+					// results that agree in all but ONE component are different voxels: same x, y, key at another
+					// horizontal zoom; same zoom and key with x and y exchanged or one of them moved
+					switch rng.Intn(6) {
+					case 0:
+						if nh := t[0] + int64(rng.Intn(3)-1); nh >= 0 && nh <= 35 && t[1] < pow2(nh) && t[2] < pow2(nh) &&
+							(name != "tile2sp" || (nh >= outV-3 && nh <= outV+6)) {
+							t[0] = nh
+						}
+					case 1:
+						t[1], t[2] = t[2], t[1]
+					case 2:
+						if t[1]+1 < pow2(t[0]) {
+							t[1]++
+						}
+					}
 				}
 				switch rng.Intn(40) {
 				case 0:
